@@ -138,7 +138,9 @@ func (d TypeDesc) build() (rt reflect.Type, err error) {
 }
 
 var fieldNames = []string{"A", "B", "C", "Dd", "Key", "Sk", "Ks", "X1", "Zz", "Name", "K"}
-var tagNames = []string{"disk_size", "key2", "max-items", "s_1", "", "a", "b", "A", "key", "KEY", "x-y", "é", "k", "s", "K", "S", "dd", "with space", "<tag>", "0", "name", "ſk", "Kk"}
+var tagNames = []string{"disk_size", "key2", "max-items", "s_1", "", "a", "b", "A", "key", "KEY", "x-y", "é", "k", "s", "K", "S", "dd", "with space", "<tag>", "0", "name", "ſk", "Kk",
+	// names made of characters outside the letters, digits and punctuation that a tag name may hold, and just inside
+	"wait\u2026", "a\u2020b", "x\u2028", "q\u203f", "\U0001F525", "a.b", "a$b", "a!b#", "\u03c0", "\u540d\u524d", "a\u00a0b", "a\"b", "a\\b", "a,b", "~x", "a:b", "@a", "a[0]", "{a}", "a|b", "a;b", "a=b", "a+b", "a*b", "a/b", "a^b", "a`b", "a'b", "a?b", "a%b", "a&b", "(a)"}
 
 func genType(t *rapid.T, depth int, label string) TypeDesc {
 	k := gen.Uniform(t, 0, 11, label+"k")
@@ -346,7 +348,7 @@ func genInput(t *rapid.T, d TypeDesc, depth int, l string) *ref.V {
 						val = ref.Str(ref.Quote(val.Str, false))
 					}
 					if gen.OneIn(t, 8, fl+"badq") {
-						val = ref.Str(rapid.SampledFrom([]string{"", " 1", "1 ", "0x1", "tru", `"unterminated`, "null", "1e", "--1"}).Draw(t, fl+"bq"))
+						val = ref.Str(rapid.SampledFrom([]string{"", " 1", "1 ", "0x1", "tru", `"unterminated`, "null", "1e", "--1", `"a"b"`, "\"a\nb\"", "\"a\tb\"", `"a\"`, `"a\\"`, `""`, `"`, `"\u00e9"`, `"\ud800"`, "\"\xff\"", `"a" `, ` "a"`, `"a""b"`, "nul", "NULL", "+1", "1.", ".5", "01", "1e+", "True"}).Draw(t, fl+"bq"))
 					}
 				}
 				if _, dup := o.Get(key); !dup || gen.OneIn(t, 3, fl+"dupkey") {
@@ -513,6 +515,10 @@ func errType(err error) string {
 		return "io.EOF" // sentinels share a dynamic type: tell them apart by identity
 	case io.ErrUnexpectedEOF:
 		return "io.ErrUnexpectedEOF"
+	case io.ErrNoProgress:
+		return "io.ErrNoProgress"
+	case errBoom:
+		return "errBoom (the reader's own error)"
 	}
 	return reflect.TypeOf(err).String()
 }
